@@ -308,6 +308,28 @@ func (g *gen) enumerate(alphabet []int, maxLen int, f func(chain []int)) {
 	rec()
 }
 
+// walks: every chain share, target, l1, l2, … that follows genuine links (by the oracle), up to maxLen
+func (g *gen) walks(shares []int, maxLen int, f func(chain []int)) {
+	var rec func(chain []int)
+	rec = func(chain []int) {
+		f(append([]int(nil), chain...))
+		if len(chain) == maxLen {
+			return
+		}
+		last := chain[len(chain)-1]
+		for _, b := range g.alphabet() {
+			if g.u.isLink(last, b) {
+				rec(append(chain, b))
+			}
+		}
+	}
+	for _, s := range shares {
+		if t := g.u.blobs[s].target; t >= 0 {
+			rec([]int{s, t})
+		}
+	}
+}
+
 const phantomID = 99
 
 func (g *gen) alphabet() []int {
@@ -494,6 +516,28 @@ func (g *gen) shareCase(n int, maxLen int) {
 			g.request(m, true, c)
 		}
 		g.request("HEAD", true, c)
+	})
+	// (2b) every link-following walk from every share (the valid chains of any length the store has,
+	// found by the oracle) and every one-element mutation of it
+	g.walks(shares, 8, func(c []int) {
+		g.request("GET", false, c)
+		if len(c) <= maxLen {
+			return // its neighbourhood was enumerated above
+		}
+		g.request("GET", true, c)
+		for i := range c {
+			keep := c[i]
+			for _, a := range alpha {
+				if a != keep {
+					c[i] = a
+					g.request("GET", false, c)
+				}
+			}
+			c[i] = -1
+			g.request("GET", false, c)
+			c[i] = keep
+		}
+		g.request("GET", false, c[1:])
 	})
 	// (3) malformed refs at every position of short chains
 	g.enumerate(append(append([]int(nil), shares...), -1, 1), 3, func(c []int) {
